@@ -444,9 +444,10 @@ class NDNApp:
         async with self._prefix_register_semaphore:
             await self._wait_for_new_command_timestamp()
             try:
-                _, _, reply = await self.express_interest(
-                    name=make_command('rib', 'register', self.face, name=name),
-                    lifetime=1000)
+                cmd_name = make_command('rib', 'register', self.face, name=name)
+                # The command carries its own clock reading, which may be later than the one the gate saw
+                self._last_command_timestamp = max(self._last_command_timestamp, timestamp())
+                _, _, reply = await self.express_interest(name=cmd_name, lifetime=1000)
                 ret = parse_response(reply)
                 if ret['status_code'] != 200:
                     self.logger.error('Registration for %s failed: %s %s',
@@ -487,8 +488,9 @@ class NDNApp:
         async with self._prefix_register_semaphore:
             await self._wait_for_new_command_timestamp()
             try:
-                _, _, reply = await self.express_interest(
-                    make_command('rib', 'unregister', self.face, name=name), lifetime=1000)
+                cmd_name = make_command('rib', 'unregister', self.face, name=name)
+                self._last_command_timestamp = max(self._last_command_timestamp, timestamp())
+                _, _, reply = await self.express_interest(cmd_name, lifetime=1000)
                 ret = parse_response(reply)
                 return ret['status_code'] == 200
             except (InterestNack, InterestTimeout, InterestCanceled, ValidationFailure):
